@@ -117,8 +117,16 @@ def run(F, rep):
                 rep.check(n['c'][0]['n'] in nn, 'C18.N1', '%s|%s' % (g.short, n['c'][0]['n']), g.where(n),
                           'parameter %s of %s is dereferenced without a dominating null test; AnalyserModel::areEquivalentVariables(v, nullptr) and AnalyserExternalVariable::addDependency reach it' % (n['c'][0]['n'], g.short),
                           'null-tested')
+        # ... or hands them to a callee that does (summaries over the call graph): the search may have been moved into a helper
+        from nullflow import NullSummaries
+        us = NullSummaries(F).unsafe.get(g.key, {})
+        for idx, (cn, why) in sorted(us.items()):
+            if cn.get('k') == 'Call' and cn.get('opc') in ('->', '*'):
+                continue    # the direct dereferences were judged above
+            n_d += 1
+            rep.fail('C18.N1', '%s|%s|via callee' % (g.short, g.params[idx]['n']), g.where(cn), 'parameter %s of %s is %s' % (g.params[idx]['n'], g.short, why))
         if n_d < 1:
-            raise AnalysisBroken('no dereference of a parameter in %s' % g.short)
+            rep.ok('C18.N1', '%s|no parameter is dereferenced here or, unguarded, in a callee' % g.short, g.where(), 'summaries of %d callees consulted' % sum(1 for c in g.walk() if c.get('k') == 'Call' and not c.get('opc')))
 
     rep.rule('C18.V1', 'the recursive search behind Variable::hasEquivalentVariable(v, true) consults and extends a visited list before recursing')
     cands = [x for x in F.fn('haveEquivalentVariables', required=False)] + [x for x in F.fn('hasEquivalentVariable', required=False)]
@@ -318,3 +326,12 @@ def run(F, rep):
     rule_take_while(F, rep, 'C18.T1', lambda g: '/src/' in g.file, 'the library')
 
 
+
+    # ------------------------------------------------------------------ every search over the equivalence graph terminates on rings (clause shared with C01)
+    # The connection graph may contain cycles (a-b, b-c, c-a): a recursive walk over equivalentVariable(i) needs a visited set, "do not step back to where
+    # I came from" is enough for trees only.  C01.R1 classifies every recursive cycle of the library by the dimension it walks and demands, for the
+    # equivalence dimension, a visited list consulted before the recursive call.
+    if not getattr(rep, 'nested', False):
+        import core
+        import c01
+        c01.run(F, core.Borrowed(rep, only={'C01.R1'}))
